@@ -4,7 +4,6 @@ mod builder;
 mod call_frame;
 mod exception_handler;
 
-use crate::constants::UNDEFINED_ARRAY;
 
 use self::{call_frame::CallFrame, exception_handler::ExceptionHandler};
 use laythe_core::{
@@ -115,7 +114,7 @@ impl Fiber {
 
     // Create stack and assign fun to first slot
     let mut stack = UniqueVector::new(allocator.manage(
-      VecBuilder::new(&UNDEFINED_ARRAY[0..stack_count], stack_count),
+      VecBuilder::new(&vec![VALUE_UNDEFINED; stack_count], stack_count),
       context,
     ));
 
@@ -586,7 +585,7 @@ impl Fiber {
 
     // Create the stack
     let mut stack = UniqueVector::new(allocator.manage(
-      VecBuilder::new(&UNDEFINED_ARRAY[0..stack_count], stack_count),
+      VecBuilder::new(&vec![VALUE_UNDEFINED; stack_count], stack_count),
       context,
     ));
     allocator.push_root(stack);
